@@ -206,7 +206,9 @@ func createCompiledRouteHandler(route *ast.Route, bytecode []byte, wsHub *websoc
 
 				var bodyMap map[string]interface{}
 				decoder := json.NewDecoder(limitedReader)
-				if err := decoder.Decode(&bodyMap); err == nil {
+				// A body that is the JSON literal null decodes into a nil map
+				// without an error; it is no object, so `input` is null.
+				if err := decoder.Decode(&bodyMap); err == nil && bodyMap != nil {
 					// Validate against the declared input type, as the
 					// interpreter path does. Without this a compiled route
 					// accepts any body at all: `< input: NewUser` was enforced
@@ -414,9 +416,12 @@ func executeRoute(route *ast.Route, ctx *server.Context, interp *interpreter.Int
 
 			var bodyMap map[string]interface{}
 			decoder := json.NewDecoder(limitedReader)
-			if err := decoder.Decode(&bodyMap); err != nil {
+			if err := decoder.Decode(&bodyMap); err != nil || bodyMap == nil {
 				// If parsing fails, treat as empty body (could be empty or malformed)
 				// Don't return error - just set to nil
+				// (the JSON literal null decodes into a nil map: no object
+				// either, and a typed nil in requestBody would not compare
+				// equal to null in the route)
 				requestBody = nil
 			} else {
 				requestBody = bodyMap
